@@ -69,6 +69,11 @@ def render_flow(spec: dict) -> str:
             a(f"        inherit = {t['inherit']}")
         for k, v in t.get('settings', {}).items():
             a(f'        {k} = {v}')
+        r = t.get('retries', {})
+        if r.get('exec'):
+            a(f"        execution retry delays = {r['exec']}*PT5S")
+        if r.get('sub'):
+            a(f"        submission retry delays = {r['sub']}*PT7S")
         if t.get('completion'):
             a(f"        completion = {t['completion']}")
         if t.get('outputs'):
